@@ -25,8 +25,11 @@ try:
     sh('rm -f rm_info.json', cwd=wt)
     rc, out = sh('/venv/bin/python %s/demo.py %s/src' % (d, wt), cwd=wt, env=env, timeout=600)
     res['demo_on_changed'] = rc; res['demo_out'] = out.strip()[-200:]
+    checks = [a.split('=')[1] for a in sys.argv if a.startswith('--check=')]
+    cid = checks[0] if checks else pid
+    res['check'] = cid
     t0 = time.time()
-    rc, out = sh('./check %s' % pid, cwd=V, env=dict(os.environ, VERIF_REPO=wt, VERIF_SEED=os.environ.get('VERIF_SEED', '0')), timeout=3000)
+    rc, out = sh('./check %s' % cid, cwd=V, env=dict(os.environ, VERIF_REPO=wt, VERIF_SEED=os.environ.get('VERIF_SEED', '0')), timeout=3000)
     res['check_exit'] = rc; res['check_wall'] = round(time.time() - t0, 1)
     res['check_lines'] = [l for l in out.splitlines() if l.startswith('VIOLATION') or 'tier=' in l][:6]
     for l in res['check_lines']:
@@ -38,7 +41,7 @@ try:
 finally:
     sh('git -C /repo worktree remove --force %s' % wt)
     # restore generated tables / evidence for the real tree
-    sh('./check %s > /dev/null 2>&1' % pid, cwd=V)
+    sh('./check %s > /dev/null 2>&1' % res.get('check', pid), cwd=V)
 if '--archive' in sys.argv and res.get('patch_applies') and res.get('demo_on_original') == 0 and res.get('demo_on_changed') not in (0, None) and '95 passed' in res.get('tests', ''):
     k = 1
     while os.path.exists(os.path.join(V, 'seeded', '%s-%d' % (pid, k))): k += 1
@@ -46,7 +49,7 @@ if '--archive' in sys.argv and res.get('patch_applies') and res.get('demo_on_ori
     for f in ('patch.diff', 'demo.py'): shutil.copy(os.path.join(d, f), dst)
     meta2 = dict(meta, confirmed=dict(
         how='fresh scratch worktree of /repo HEAD (%s): git apply patch.diff; baseline suite; demo.py on original and changed tree; VERIF_REPO=<worktree> ./check %s (quick, seed %s)' % (
-            subprocess.check_output(['git', '-C', '/repo', 'rev-parse', '--short', 'HEAD']).decode().strip(), pid, os.environ.get('VERIF_SEED', '0')),
+            subprocess.check_output(['git', '-C', '/repo', 'rev-parse', '--short', 'HEAD']).decode().strip(), res.get('check', pid), os.environ.get('VERIF_SEED', '0')),
         baseline_suite=res['tests'], demo_on_original_exit=res['demo_on_original'], demo_on_changed_exit=res['demo_on_changed'],
         demo_output=res.get('demo_out'), check_exit=res.get('check_exit'), check_wall_s=res.get('check_wall'),
         check_lines=res.get('check_lines'), violated=res.get('clauses'),
